@@ -333,6 +333,10 @@ class Mini:
                 return all(self.bind(sp, v[2][fn], env) for fn, sp in pat[2])
             if isinstance(v, tuple) and v and v[0] == "variant":
                 return False
+            if isinstance(v, tuple) and v and v[0] == "struct" and t == "ts" and isinstance(v[1], str):
+                a, b = self.canon(v[1]), self.canon(pat[1])
+                if a != b and a.rsplit("::", 1)[0] == b.rsplit("::", 1)[0]:
+                    return False  # a struct-like variant of the same enum against a tuple-variant pattern
             raise Unsupported(f"pattern {pat[1]}")
         if t == "ppath":
             name = pat[1].split("::")[-1]
@@ -342,6 +346,8 @@ class Mini:
                 return self.canon(v[1]) == self.canon(pat[1])
             if v == "None":
                 return False
+            if isinstance(v, tuple) and v and v[0] == "struct" and isinstance(v[1], str) and self.canon(v[1]).rsplit("::", 1)[0] == self.canon(pat[1]).rsplit("::", 1)[0]:
+                return self.canon(v[1]) == self.canon(pat[1])
             raise Unsupported(f"path pattern {pat[1]}")
         if t == "por":
             return any(self.bind(p, v, env) for p in pat[1])
@@ -833,6 +839,8 @@ class Mini:
             if isinstance(a_, (list, tuple, dict)) and isinstance(b_, (list, tuple, dict)):
                 return a_ is b_
             raise Unsupported("ptr::eq on values without identity")
+        if p == "std::boxed::Box::<T>::new" and len(args) == 1:
+            return args[0]
         if p in ("std::iter::sources::once::once", "std::iter::once") and len(args) == 1:
             return ("iter", [args[0]])
         if p in ("std::iter::sources::empty::empty", "std::iter::empty"):
@@ -1011,7 +1019,7 @@ class Mini:
             return recv
         if p in ("std::string::String::len", "std::str::<impl str>::len") and isinstance(recv, list):
             return len(recv)
-        if p.startswith("std::option::Option::<T>::as_deref") or p == "std::ops::Deref::deref":
+        if p.startswith(("std::option::Option::<T>::as_deref", "std::option::Option::<T>::as_ref", "std::option::Option::<T>::as_mut")) or p == "std::ops::Deref::deref":
             return recv
         if p.startswith("std::slice::<impl [T]>::"):
             if nm == "len":
